@@ -149,7 +149,8 @@ def removed_quiet_full : Prop :=
     (t2, Out.event ch' (.resolved r)) ∉
       (run (iter (run (init t0 intfs) pre).1 last.1 last.2.1 last.2.2).1 (post.map fun t => (t, [], []))).2
 
-/-- **removed_quiet, partial**: a `ServiceResolved` of `resolve_updated_instances` needs a USABLE
+/-- **removed_quiet, partial** (the full clause is refuted below, `removed_quiet_full_false`): a
+    `ServiceResolved` of `resolve_updated_instances` needs a USABLE
     PTR entry of its type pointing to the instance in the cache of that moment.  So after a
     removal caused by the expiry (goodbye or TTL) of the PTR, nothing is resolved for the
     instance until a PTR for it is stored again.  Missing for the full clause: removals caused
@@ -166,6 +167,55 @@ theorem removed_quiet_partial (s : State) (now : Nat) (u : List BList) (ch : Nat
     · cases he
       exact mem_visits s now u v hv
     · exact absurd h (noResolved_notifyRemoval _ _ ch r)
+
+/-! ### `removed_quiet_full` does not hold: a second SRV record takes over -/
+
+def hostA : BList := [0x41, 0x2e]              -- "A."
+def hostB : BList := [0x42, 0x2e]              -- "B."
+
+/-- one announcement of the instance with TWO SRV records (shared, no cache-flush bit): target
+    "B." port 81 (TTL 120) and target "A." port 80 (TTL 10, stored in front); address of "A." with
+    TTL 5; two addresses of "B." with TTL 120 and 20 -/
+def twoSrvAnnounce : Packet :=
+  { ifIdx := 2, v4 := true,
+    msg := { id := 0, flags := 0x8400, questions := [],
+             answers := [C03.wrec C03.ty 12 120 (.ptr C03.inst)],
+             authorities := [],
+             additionals := [C03.wrec C03.inst 33 120 (.srv 0 0 81 hostB), C03.wrec C03.inst 33 10 (.srv 0 0 80 hostA),
+                             C03.wrec hostA 1 5 (.a [10, 0, 0, 1]), C03.wrec hostB 1 120 (.a [10, 0, 0, 2]),
+                             C03.wrec hostB 1 20 (.a [10, 0, 0, 3])] } }
+
+/-- resolved with "A." at 1500; the address of "A." runs out at 6500: `resolve_service_from_cache`
+    looks at the FIRST usable SRV only ("A.", no address left) and the instance is reported
+    removed although the SRV to "B." and an address of "B." are live; at 21500 - no datagram, no
+    command since - the SRV to "A." has run out and the expiry of an address of "B." re-resolves
+    the instance: `ServiceResolved` with "B." port 81 -/
+theorem removed_quiet_witness :
+    ((run (init 1000 [C03.eth0])
+        [(1000, [], [.browse C03.ty 1 false]), (1500, [twoSrvAnnounce], []), (6500, [], []), (21500, [], [])]).2.filterMap
+        fun o => (match o.2 with
+          | .event 1 (.resolved r) => if r.fullname == C03.inst then some (o.1, 1, r.port) else none
+          | .event 1 (.removed _ i) => if i == C03.inst then some (o.1, 2, 0) else none
+          | _ => none : Option (Nat × Nat × Nat))) =
+      [(1500, 1, 80), (6500, 2, 0), (21500, 1, 81)] := by decide
+
+/-- **`removed_quiet_full` is false of the model** (hence, by the correspondence, of the code; the
+    same history reproduces on the real daemon: `corpus-candidates/C05/two_srv_removed_then_resolved.ops`).
+    The removal itself is also one "while the instance still has a live PTR, a live SRV and a live
+    address" - of the second SRV record, which `resolve_service_from_cache` does not look at
+    (`not_unresolved_while_live` speaks of the first usable SRV). -/
+theorem removed_quiet_full_false : ¬ removed_quiet_full := by
+  intro h
+  have h1 : Out.event 1 (.removed C03.ty C03.inst) ∈
+      (iter (run (init 1000 [C03.eth0]) [(1000, [], [.browse C03.ty 1 false]), (1500, [twoSrvAnnounce], [])]).1
+        6500 [] []).2 := by decide
+  have h2 : (21500, Out.event 1 (.resolved
+      { ty := C03.ty, sub := none, fullname := C03.inst, host := hostB, port := 81,
+        addrs := [([10, 0, 0, 2], [0x65], 2)], txt := [] })) ∈
+      (run (iter (run (init 1000 [C03.eth0]) [(1000, [], [.browse C03.ty 1 false]), (1500, [twoSrvAnnounce], [])]).1
+        6500 [] []).1 ([21500].map fun t => (t, [], []))).2 := by decide
+  exact h 1000 [C03.eth0] [(1000, [], [.browse C03.ty 1 false]), (1500, [twoSrvAnnounce], [])] (6500, [], []) [21500]
+    1 1 21500 C03.ty C03.inst _ h1 rfl h2
 
 /-! ### non-vacuity -/
 
